@@ -975,6 +975,14 @@ func (s *Syncer) Run() error {
 // Close closes the Syncer's net.Listener.
 func (s *Syncer) Close() error {
 	err := s.l.Close()
+	// Run disconnects the peers when it shuts down; peers added through
+	// Connect are served without it and have to be disconnected as well
+	s.mu.Lock()
+	s.closing = true
+	for _, p := range s.peers {
+		p.Close()
+	}
+	s.mu.Unlock()
 	s.tg.Stop()
 	return err
 }
